@@ -1,9 +1,11 @@
 (* C01 - a created snapshot reads back as the value that was observed.  Property theorems: the value created for an empty snapshot
    satisfies every observed comparison (all five operations) and makes the same script pass afterwards with any flags (Model/SnapOps.v);
-   every str / bytes literal written reads back as the original value (Model/StrLit.v). *)
+   every str / bytes literal written reads back as the original value (Model/StrLit.v); the code generated for every nested value of the
+   modelled types is read back by (the model of) Python's parser as exactly that value (Model/PyRepr.v). *)
 From Coq Require Import List ZArith NArith Bool Arith.
 Import ListNotations.
 From V Require Import Model.SnapOps Model.StrLit Proofs.SnapOpsFlat Proofs.SnapOpsNested Proofs.SnapOpsRuns Proofs.StrLitTriple Proofs.StrLitBytes.
+From V Require Model.PyRepr Proofs.PyReprProofs.
 
 Theorem C01_create_satisfies_op_flat :
   forall (fixed : bool) (F : flags) (K : kind) (x : Z) (r : list Z) (c : counters),
@@ -83,6 +85,20 @@ Theorem C01_src_val_canon :
   forall v : pv, src_val (canon_src v) = v.
 Proof. exact src_val_canon. Qed.
 
+(* nested values: list / tuple (incl. the 1-tuple comma) / dict / set displays, set() and frozenset(...), Enum members and classes
+   (dotted names), constructor calls with positional and keyword arguments, negative integers, str and bytes tokens - any depth,
+   any size; `rest` is whatever follows the expression inside the call *)
+Theorem C01_repr_parse_roundtrip_fuel :
+  forall v : PyRepr.pv, PyRepr.wf v = true ->
+  forall (fuel : nat) (rest : list PyRepr.tok),
+  (PyReprProofs.size v <= fuel)%nat -> PyReprProofs.follow_ok rest = true ->
+  PyRepr.p fuel PyRepr.MExpr (PyRepr.repr_toks v ++ rest) = Some (PyRepr.RE v, rest).
+Proof. exact PyReprProofs.repr_parse_roundtrip_fuel. Qed.
+
+Theorem C01_parse_repr_roundtrip :
+  forall v : PyRepr.pv, PyRepr.wf v = true -> PyRepr.parse (PyRepr.repr_toks v) = Some v.
+Proof. exact PyReprProofs.parse_repr_roundtrip. Qed.
+
 Print Assumptions C01_create_satisfies_op_flat.
 Print Assumptions C01_create_satisfies_getitem.
 Print Assumptions C01_created_snapshot_second_run_passes.
@@ -91,3 +107,5 @@ Print Assumptions C01_create_getitem_inconsistent_refuted.
 Print Assumptions C01_str_literal_fixed_roundtrip.
 Print Assumptions C01_bytes_repr_roundtrip.
 Print Assumptions C01_src_val_canon.
+Print Assumptions C01_repr_parse_roundtrip_fuel.
+Print Assumptions C01_parse_repr_roundtrip.
